@@ -171,7 +171,8 @@ package clusters
 //@   loop 0: invariant [pool] poolcerts[newClientCAPool] == take(newClientCAs, idx)
 //@   loop 0: invariant [pools_kept] forall p ref :: {poolcerts[p]} !fresh(p) ==> poolcerts[p] == old(poolcerts[p])
 
-//@ func (*ClusterInfo).Sync props C11
+//@ func (*ClusterInfo).Sync props C11, C01
+//@   requires [names_prechecked] prechecked == cluster onlyfor C10
 //@   requires [obj] cluster != nil
 //@   requires [latest] cluster == latestobj
 //@   requires [wf] fgWF
@@ -252,14 +253,20 @@ package clusters
 //@   trusted "builds the transports and clientset of this endpoint; touches only its own transport fields"
 //@   modifies e.ProxyTransport, e.clientset, e.cancelableTs
 
-//@ func unwrapUpgradeRequestRoundTripper props C03, C11, C15
+//@ func unwrapUpgradeRequestRoundTripper props C03, C11, C15, C02
 //@   trusted "pure unwrapping of round trippers"
 //@   modifies nothing
+//@   ensures result == unwrapOf(rt)
 
 //@ const EPK = box(endpoint)
 //@ const epEntry = unbox(smget(EPC, box(endpoint)), "*EndpointInfo")
 
-//@ func (*ClusterInfo).addOrUpdateEndpoint props C03, C11, C15
+// (C02) Both transports of a new endpoint are built from the endpoint's OWN config copies, which carry the impersonating
+// round tripper as WrapTransport: the upgrade transport is what is unwrapped from the transport of that copy, nothing else.
+//@ const IMPRT = funcval("github.com/kubewharf/kubegateway/pkg/transport::NewDynamicImpersonatingRoundTripper")
+//@ func (*ClusterInfo).addOrUpdateEndpoint props C03, C11, C15, C02
+//@   ensures [own_impersonating_configs] !old(smhas(EPC, EPK)) && result == nil ==> epEntry.proxyConfig != nil && epEntry.proxyUpgradeConfig != nil && epEntry.proxyConfig != c.restConfig && epEntry.proxyUpgradeConfig != c.restConfig && epEntry.proxyConfig.WrapTransport == IMPRT && epEntry.proxyUpgradeConfig.WrapTransport == IMPRT && epEntry.proxyConfig.Host == endpoint && epEntry.proxyUpgradeConfig.Host == endpoint onlyfor C02
+//@   ensures [upgrade_transport_of_own_config] !old(smhas(EPC, EPK)) && result == nil ==> epEntry.PorxyUpgradeTransport == unwrapOf(transportOf(epEntry.proxyUpgradeConfig)) onlyfor C02
 //@   requires [wf] epsWF && c.restConfig != nil
 //@   requires [inj] epsInj
 //@   modifies smap(&c.Endpoints.data)[box(endpoint)], fields("endpointStatus", "Disabled"), fields("EndpointInfo", "healthCheckCh"), fields("EndpointInfo", "cancelHealthCheck"), cancelled, probectx
